@@ -114,6 +114,11 @@ def one(ctx, name, prose, doc_class, typ, typ_class, value, default_class, how, 
         return
     ctx.event("extract_default")
     exp = canon_default(value)
+    if value == NoneStr and out_val == "None":
+        # extract_default reports "no default found" as None, so the bare word None is its
+        # spelling of the None marker (doctrans.pure_utils.none_types); what must not happen
+        # is that word reaching an IR as a string -- the interpolation step below checks that
+        out_val = NoneStr
     got = canon_default(_unq(out_val) if out_val is not None else (NoneStr if value == NoneStr and out_val is None else ABSENT))
     if out_val is None and value != NoneStr:
         got = ("absent",)
